@@ -352,6 +352,14 @@ def run_S2(cx, job):
                      ' %s ' % tok):
             _check_text(cx, 'S2', text, S2_CREDS, nontrivial=True)
         cx.acc.sample('S2', tok)
+    # two tokens next to each other, separated by every kind of blank - the
+    # pieces must never fuse into one check (True<TAB>:True is NOT True:True)
+    pair = ['True', ':True', '1', ':1', "'x'", ':x', 'x', 'role:a', '@', '!',
+            'not', 'and', 'x:', 'None', ':None']
+    for t1, t2 in itertools.product(pair, repeat=2):
+        for sep in ('\t', '\n', '\r\n', '\x0c', '\x0b', '\t \n'):
+            _check_text(cx, 'S2', t1 + sep + t2, S2_CREDS,
+                        key='S2|pair|%s %s' % (t1, t2), nontrivial=True)
 
 
 def _edits(tokens):
